@@ -35,3 +35,7 @@ package utils
 //@   requires evp != nil
 //@   modifies evp.pool, MAP
 //@   ensures[C15] evp.pool != nil
+//@ field[C20] Timer.timeout: immutable_after(NewTimer)
+//@ field[C20] Timer.checkingTimeout: immutable_after(NewTimer)
+//@ field[C20] Timer.ctx: immutable_after(NewTimer)
+//@ field[C20] Timer.cancel: immutable_after(NewTimer)
